@@ -34,9 +34,14 @@ datetime64/timedelta64 only for the order reductions (min/max/arg*), split_every
 to float32/float64/complex128 (and int64 for sum/prod/scans of integer data).
 
 Labels: ``<op>:<input-feature predicate>:<symptom>``; the predicate depends on the symptom (shape ->
-keepdims / axis kind; dtype -> input kind, dtype= given; values -> non-finite content; arg tie-break ->
-axis kind, ndim>1, whether a non-leading axis is split).  split_every values, chunk counts and seeds
-never enter a label.
+keepdims / axis=() / 0-d; dtype -> input kind or float32, dtype= given, q kind; values -> count<=ddof,
+|k|==n, scan method, non-finite content).  split_every values, chunk counts, seeds and exception types never
+enter a label (``raises@file.py:function``).  One mechanism = one label is helped by small classifiers that re-run
+the REAL API on a variant of the failing input: `nonfinite` is kept only if the symptom disappears once
+NaN/inf/NaT are replaced by finite values; a failing Blelloch scan whose sequential twin agrees with NumPy is
+labelled ``blelloch-scan`` (shared prefixscan_blelloch) instead of per function; std/nanstd are labelled as
+var/nanvar when that differs too; the four arg-reductions share the label family ``arg-reduction`` (shared
+arg_reduction / arg_chunk / _arg_combine) with predicate axis=None|int, ndim>1, non-leading-axis-split, ties.
 
 Calibration (unchanged tree)
 * Products (prod, nanprod, cumprod, nancumprod) in float32 are limited to 48 elements (values
@@ -77,14 +82,23 @@ RULE = ("cases = (operation, shape, dtype, data seed/flavour, chunking, axis sel
         "ddof/dtype=/order/method/k/q). Complete part: all chunkings of shapes (4,) and (2,3) x {sum, max, mean, "
         "cumsum sequential, cumsum blelloch, argmin} x all axis choices (None, every int incl. negative, every non-empty "
         "axis tuple, ()) x keepdims x split_every {2, None} on an int64 array with ties and a float64 array with NaN. "
-        "Random part: 46 operations, shapes 0-3 d with axis lengths 1-6 (one axis up to 14), 10 dtypes, five data "
+        "Random part: 31 operations (scans x 2 methods), shapes 0-3 d with axis lengths 1-6 (one axis up to 14), 10 dtypes, five data "
         "flavours (small dyadic with NaN/inf/-0.0, clean, inf, ties, non-dyadic normal), random chunkings. "
         "non-trivial = some axis split into >= 2 chunks; distinct = distinct (op, shape, dtype, chunks, axis, keepdims, "
         "split_every, parameters).")
 ASSUMPTIONS = ["NumPy 2.x defines expected values, dtype and shape", "sync scheduler",
                "moment / topk / argtopk have no NumPy function: the reference is their documented definition"]
 BUDGET = {"quick": 40, "thorough": 540}
-FLOORS = {"quick": {"evaluations": 100, "distinct_nontrivial": 50}, "thorough": {"evaluations": 100, "distinct_nontrivial": 50}}
+FLOORS = {  # ~45 % of the counts measured on the unchanged tree (quick: 5456 cases / 4154 distinct; thorough: 111856 / 79764)
+    "quick": {"evaluations": 2400, "distinct_nontrivial": 1800,
+              "counters": {"compared": 2900, "arg_compared": 650, "combine_level_runs": 600, "split_every_pairs": 1200,
+                           "scan_blelloch": 200, "scan_sequential": 200, "topk_checked": 210, "lazy_meta_checked": 3600},
+              "sets": {"op_axis_kind": 120}, "max_skipped_fraction": 0.2},
+    "thorough": {"evaluations": 50000, "distinct_nontrivial": 35000,
+                 "counters": {"compared": 51000, "arg_compared": 14000, "combine_level_runs": 12000, "split_every_pairs": 16000,
+                              "scan_blelloch": 4700, "scan_sequential": 4800, "topk_checked": 6000, "lazy_meta_checked": 65000},
+                 "sets": {"op_axis_kind": 120}, "max_skipped_fraction": 0.2},
+}
 EXHAUSTIVE_SPACE = ("all chunkings of shapes (4,) and (2,3) x {sum, max, mean, cumsum(sequential), cumsum(blelloch), argmin} "
                     "x all axis choices x keepdims x split_every in {2, None} x {int64 with ties, float64 with NaN}")
 CLAIM = ("Every generated reduction / scan / selection was computed by the real dask.array for one or two split_every "
@@ -95,7 +109,22 @@ CLAIM = ("Every generated reduction / scan / selection was computed by the real 
 LEVEL_NOTE = "NumPy is the reference; domain limited to what the statement and quantifier name (see module docstring)"
 TECHNIQUE = "runtime monitoring: NumPy differential oracle over generated inputs, complete small chunking spaces, split_every cross-check"
 
-PENDING = {}
+PENDING = {  # genuine on the unchanged tree; witnesses, locations and fix diffs in findings_proposed/C22.md
+    "arg-reduction:axis=None&ndim>1&non-leading-axis-split&ties:tie-break-differs":
+        "arg*(axis=None) on >=2-d arrays split along a non-leading axis resolves ties by chunk-grid order, not first occurrence (fix proposed)",
+    "argtopk:|k|==n&axis-split:raises@array/chunk.py:argtopk_aggregate":
+        "argtopk with |k| == axis length and >=2 chunks along the axis raises (chunk.argtopk returns the un-concatenated list; fix proposed)",
+    "blelloch-scan:dtype=given:values":
+        "method='blelloch' computes the block totals in the input dtype, ignoring dtype= (float32 precision; fix proposed)",
+    "moment:order<2&keepdims:shape": "moment(order 0|1) ignores keepdims (fix proposed)",
+    "moment:order<2&float32:dtype": "moment(order 0|1) always returns float64 (same shortcut; fix proposed)",
+    "quantile:float32&q-python-scalar:dtype": "quantile(float32, python-scalar q) returns float64, NumPy float32 (fix proposed)",
+    "nanquantile:float32&q-python-scalar:dtype": "nanquantile: same lines as quantile (fix proposed)",
+    "nanvar:count<=ddof:values": "nanvar/nanstd with ddof == number of valid elements gives inf, np.nanvar documents NaN (no fix)",
+    "nanquantile:nonfinite:values": "nanquantile fast path (last axis, linear) gives +-inf where NumPy computes inf-inf = NaN (no fix)",
+    "arg-reduction:axis=int&nan&lane-extreme-is-inf:raises@array/reductions.py:nanarg_agg":
+        "nanargmin/nanargmax raise 'All NaN slice' for a lane whose only valid values are inf when a chunk of it is all-NaN (no fix)",
+}
 
 RED = ["sum", "prod", "min", "max", "any", "all", "mean", "var", "std",
        "nansum", "nanprod", "nanmin", "nanmax", "nanmean", "nanvar", "nanstd", "moment"]
